@@ -121,44 +121,37 @@ def maxIntDigits : Nat := 4300
 
 /-- a leaf is one token: identifiers over the identifier alphabet; integers in the spelling
     `str(int(text))` reproduces (no redundant leading zero, at most 4300 digits); strings are
-    `"…"`; floats and paths are non-empty and free of whitespace at either end. -/
+    `"…"`; floats over the float alphabet; paths contain `/` or are `<…>`, and no whitespace. -/
 def leafOk : LeafKind → Text → Bool
   | .ident, t => !t.isEmpty && t.all isIdentChar
   | .int, t => !t.isEmpty && t.all isAsciiDigit && (t.length = 1 || t.head? != some '0') &&
       t.length ≤ maxIntDigits
   | .float, t => !t.isEmpty && t.all fun c => isAsciiDigit c || c = '.' || c = 'e' || c = 'E' || c = '+' || c = '-'
   | .str, t => 2 ≤ t.length && t.head? == some '"' && t.getLast? == some '"'
-  | .path, t => !t.isEmpty && t.all fun c => !isWsChar c
+  | .path, t => (t.contains '/' || t.head? == some '<') && t.all fun c => !isWsChar c
 
-/-- a single-segment attribute name: the splitter of `binding._split_attrpath` returns it whole -/
-def nameOk (n : Text) : Bool := decide (splitAttrpath n = .ok [n])
+/-- a single-segment attribute name: the splitter of `binding._split_attrpath` returns it whole;
+    it is not empty and has no line break in it -/
+def nameOk (n : Text) : Bool :=
+  decide (splitAttrpath n = .ok [n]) && !n.isEmpty && !containsNL n
 
-def gcOk (cs : GC) : Bool := cs.all fun p => isGap p.1 && isCommentTok p.2
+def isLineCmt (t : Text) : Bool := startsWith ['#'] t
+
+/-- a line comment runs to the end of its line: the whitespace after it starts with the line break
+    (or the file ends there) -/
+def closedBy (t next : Text) (eofOk : Bool) : Bool :=
+  !isLineCmt t || startsWithNL next || (eofOk && next.isEmpty)
+
+/-- a comment run inside a binding; `next` is the gap after the run -/
+def gcOk : GC → Text → Bool
+  | [], _ => true
+  | [p], next => isGap p.1 && isCommentTok p.2 && closedBy p.2 next false
+  | p :: q :: rest, next => isGap p.1 && isCommentTok p.2 && closedBy p.2 q.1 false && gcOk (q :: rest) next
 
 /-- where an item sequence sits -/
 inductive Mode where
   | file | list | set
 deriving DecidableEq, Repr
-
-mutual
-def Cst.wf : Cst → Bool
-  | .leaf k t => leafOk k t
-  | .list its cg => its.wf .list && isGap cg
-  | .set r rg its cg => (r || rg.isEmpty) && isGap rg && its.wf .set && isGap cg
-def Items.wf : Items → Mode → Bool
-  | .nil, _ => true
-  | .cmt g t rest, m => isGap g && isCommentTok t && rest.wf m
-  | .elem g c rest, m => m != .set && isGap g && c.wf && rest.wf m
-  | .bind g n c1 g1 c2 g2 v c3 g3 rest, m =>
-    m == .set && isGap g && nameOk n && gcOk c1 && isGap g1 && gcOk c2 && isGap g2 && v.wf &&
-      gcOk c3 && isGap g3 && rest.wf m
-end
-
-def Items.countElems : Items → Nat
-  | .nil => 0
-  | .cmt _ _ rest => rest.countElems
-  | .elem _ _ rest => rest.countElems + 1
-  | .bind _ _ _ _ _ _ _ _ _ rest => rest.countElems
 
 /-- the gap in front of the first item (`none`: no item) -/
 def Items.firstGap : Items → Option Text
@@ -167,9 +160,33 @@ def Items.firstGap : Items → Option Text
   | .elem g _ _ => some g
   | .bind g _ _ _ _ _ _ _ _ _ => some g
 
-/-- `WF`: gaps are whitespace, comments are comment tokens of the fragment, names and leaves are
-    single tokens, a file has exactly one top-level expression. -/
-def File.wf (f : File) : Bool := f.items.wf .file && f.items.countElems = 1 && isGap f.endGap
+mutual
+def Cst.wf : Cst → Bool
+  | .leaf k t => leafOk k t
+  | .list its cg => its.wf .list cg && isGap cg
+  | .set r rg its cg => (r || rg.isEmpty) && isGap rg && its.wf .set cg && isGap cg
+/-- `closeGap`: the whitespace after the last item (in front of the closing token / the end of the
+    file) -/
+def Items.wf : Items → Mode → Text → Bool
+  | .nil, _, _ => true
+  | .cmt g t rest, m, cg =>
+    isGap g && isCommentTok t && closedBy t (rest.firstGap.getD cg) (m == .file) && rest.wf m cg
+  | .elem g c rest, m, cg => m != .set && isGap g && c.wf && rest.wf m cg
+  | .bind g n c1 g1 c2 g2 v c3 g3 rest, m, cg =>
+    m == .set && isGap g && nameOk n && gcOk c1 g1 && isGap g1 && gcOk c2 g2 && isGap g2 && v.wf &&
+      gcOk c3 g3 && isGap g3 && rest.wf m cg
+end
+
+def Items.countElems : Items → Nat
+  | .nil => 0
+  | .cmt _ _ rest => rest.countElems
+  | .elem _ _ rest => rest.countElems + 1
+  | .bind _ _ _ _ _ _ _ _ _ rest => rest.countElems
+
+/-- `WF`: gaps are whitespace, comments are comment tokens of the fragment (a line comment is
+    followed by its line break), names and leaves are single tokens, a file has exactly one
+    top-level expression. -/
+def File.wf (f : File) : Bool := f.items.wf .file f.endGap && f.items.countElems = 1 && isGap f.endGap
 
 /-- The file does not start with whitespace. `NixSourceCode.from_cst` shares `node.text` — which
     starts at the first token — with helpers that index it by absolute byte offsets; the offsets
